@@ -23,7 +23,7 @@ def obligations(tier):
                           unwind=max(mr, mt) + 2, timeout=300 if not th else 1800, clause='every row is processed by exactly one worker', stubs=('pthread_rec.c',), object_bits=10,
                           unwindset=(f'DVectorResize.0:{mr*(mr-1)//2+2}',) if site in (4, 5, 6, 7) else ()))
     # values (E-REAL)
-    R = ('sym_real_env.c', 'sym_pthread_sync.c')
+    R = ('sym_real_env_uf.c', 'sym_pthread_sync.c')
     to = 120 if not th else 900
     MN = ['euclid', 'sqeuclid', 'manhattan', 'cosine']
     for meth in (0, 1, 2, 3):
